@@ -472,9 +472,9 @@ func runC05(c *wk.Ctx) {
 			return pausePool[i].Hit < pausePool[j].Hit
 		})
 	}
-	n := c.N(700, 24000)
+	n := c.N(700, 48000)
 	if c.Variant == "race" {
-		n = c.N(250, 6000)
+		n = c.N(250, 12000)
 	}
 	modes := []rig.Mode{rig.ModeSync, rig.ModeBuffered, rig.ModeChunked}
 	sigs := map[uint64]bool{}
